@@ -392,3 +392,80 @@ LEMMAS['H3'] = dict(jobs=jobs_H3, run=run_H3, units=['lib'], asm=True,
     doc='binding bookkeeping, one inductive step per API call from an arbitrary prior binding (same cache, or a released cache whose addresses may have been handed out again): afterwards the VM uses exactly the given cache object, its memory, its current key, and (JIT) code generated from its programs; init_cache skips work only for a byte-identical key on an initialised cache',
     bound='keys of length <= 3 (all length pairs in thorough, 6 pairs quick), symbolic key bytes; interpreted and compiled light VMs; one call', symbolic='key bytes, prior binding (object identity, address reuse), initialised flag',
     stubs=['std::string := SSO model', 'Argon2/Blake2 generator/JIT code generation := recorders', 'cache->initialize := recorder'], outside='sequences violating the documented contract (hash on a VM bound to a released cache without re-binding)')
+
+# ---------------------------------------------------------------------------------------------- K1: VM glue around the engines (C01, C03)
+def run_K1(ctx, case):
+    """what run(seed) of every VM class does around the engine: program generation with the right AES flavour into the VM's own program buffer,
+    VM programming, (JIT) code generation with the VM's flags and dataset offset, dataset base = memory + datasetOffset, engine entered with the VM's own
+    register file / memory registers / scratchpad and RANDOMX_PROGRAM_ITERATIONS; v1<->v2 switches reach the compiler"""
+    q = Q(30); mod = Module(ctx['ll']['lib']); F = flagvals(); flags = case['flags']; from lemmas.api import vm_layout, vtable_slots
+    it = Interp(mod); bind_templates(it, ctx); H0 = Heap(it, fail=False); cxxlib.install(it, H0); run_ctors(it, mod)
+    H = Heap(it, fail=False); cxxlib.install(it, H); ev = []
+    def rec(name):
+        def h(s, a): ev.append((name, a)); return None
+        return h
+    for f in mod.funcs:
+        for g in ('generateSuperscalarHash', 'generateDatasetInitCode', 'generateProgramLight', 'generateProgram'):
+            if 'JitCompilerX86' in f and re.search(r'\d+' + g + 'E', f): it.hooks[f] = rec(g)
+        if re.search(r'InterpretedVm.*7executeEv$', f): it.hooks[f] = rec('execute')
+    for soft in (0, 1):
+        for nm, short in (('_Z11fillAes4Rx4ILb%dEEvPvmS0_', 'fillAes4Rx4'), ('_Z11fillAes1Rx4ILb%dEEvPvmS0_', 'fillAes1Rx4')):
+            it.hooks[nm % soft] = (lambda n_, s_: lambda s, a: ev.append((n_, a, s_)) and None)(short, soft)
+    it.hooks['<indirect>'] = lambda s, fp, a: ev.append(('enter_code', [fp] + list(a))) and None
+    full = bool(flags & F['FULL_MEM']); jit = bool(flags & F['JIT']); hard = bool(flags & F['HARD_AES'])
+    cache = fake_cache(it, mod); d = it.mem.alloc(16, 'the_dataset'); dm = it.mem.alloc(P.DATASET_BASE + P.DATASET_EXTRA, 'dataset_memory'); it.mem.store(Ptr('the_dataset', 0), dm, 8)
+    vm = it.call('randomx_create_vm', [flags, Ptr(None, 0) if full else cache, d if full else Ptr(None, 0)])
+    L = vm_layout(mod); tm = resolve(NamedT('struct.randomx::MemoryRegisters', mod)).layout()[0]; tag = 'VM(flags=%d)' % flags
+    def chk(c, what):
+        q.n += 1; q.unsat += bool(c); q.sat += (not c)
+        if not c: q.failed.append(('%s: %s' % (tag, what), {}))
+    chk(isinstance(vm, Ptr) and vm.obj is not None, 'created'); 
+    if not (isinstance(vm, Ptr) and vm.obj): return result('K1', str(case), q, paths=1)
+    mp = it.mem.load(Ptr(vm.obj, L['mem'] + tm[2]), 8)
+    if not jit or not full: chk(isinstance(mp, Ptr) and mp.obj == ('dataset_memory' if full else 'the_cache_memory') and mp.off == 0, 'after creation the interpreter/light VM reads from the %s memory' % ('dataset' if full else 'cache'))
+    # run(seed) through the vtable
+    vt = it.mem.load(Ptr(vm.obj, 0), 8); slots, n = vtable_slots(mod, 'InterpretedVm'); runslot = [k for k, v in slots.items() if v == 'run'][0]
+    runfn = it.mem.load(Ptr(vt.obj, vt.off + 8 * runslot), 8); seed = it.mem.alloc(64, 'seed')
+    del ev[:]; dso = z3.BitVec('datasetOffset_entropy', 64)
+    # make the program's entropy[13] symbolic so that datasetOffset is symbolic after initialize(): fillAes4Rx4 is a recorder, so fill the program buffer here
+    for k in range(16): it.mem.store(Ptr(vm.obj, L['program'] + 8 * k), z3.BitVec('entropy%d' % k, 64), 8)
+    it.call(runfn.obj[4:], [vm, seed])
+    names = [e[0] for e in ev]
+    want = ['fillAes4Rx4'] + ((['generateProgram' if full else 'generateProgramLight', 'enter_code']) if jit else ['execute'])
+    chk(names == want, 'run(seed) performs %s, expected %s' % (names, want))
+    if names == want:
+        a = ev[0]; psize = 128 + 8 * build.config_constants().get('RANDOMX_PROGRAM_MAX_SIZE', 384)
+        chk(a[1][0].obj == 'seed' and a[1][1] == psize and a[1][2].obj == vm.obj and a[1][2].off == L['program'], 'program = AesGenerator4R(seed) over the whole program buffer (%d bytes) of this VM' % psize)
+        chk(a[2] == (0 if hard else 1), 'program generator uses the %s AES flavour selected by the flags' % ('hardware' if hard else 'software'))
+        dsoff = it.mem.load(Ptr(vm.obj, L['datasetOffset']), 8)
+        if jit:
+            g = ev[1][1]
+            chk(g[1].obj == vm.obj and g[1].off == L['program'] and g[2].obj == vm.obj and g[2].off == L['config'], 'code generated from this VM\'s program and configuration')
+            if not full: q.prove_eq([], g[3], z3.Extract(31, 0, bv(dsoff, 64)), '%s: light JIT code is generated with this program\'s datasetOffset' % tag, 32)
+            c = ev[2][1]; TJ = resolve(NamedT('class.randomx::JitCompilerX86', mod)).layout()[0]
+            chk(isinstance(c[0], Ptr) and c[0].obj == it.mem.load(Ptr(g[0].obj, g[0].off + TJ[2]), 8).obj and c[0].off == 0, 'the generated code of this VM\'s compiler is entered at its start')
+            chk(c[1].obj == vm.obj and c[1].off == L['reg'] and c[2].obj == vm.obj and c[2].off == L['mem'], 'engine runs on this VM\'s register file and memory registers')
+            sp = it.mem.load(Ptr(vm.obj, L['scratchpad']), 8); chk(isinstance(c[3], Ptr) and c[3].obj == sp.obj and c[3].off == 0, 'engine runs on this VM\'s scratchpad')
+            chk(c[4] == P.P['RANDOMX_PROGRAM_ITERATIONS'], 'engine runs RANDOMX_PROGRAM_ITERATIONS iterations')
+            mp = it.mem.load(Ptr(vm.obj, L['mem'] + tm[2]), 8)
+            if full:
+                ok = isinstance(mp, Ptr) and mp.obj == 'dataset_memory'; chk(ok, 'fast mode: dataset base pointer points into the dataset')
+                if ok: q.prove_eq([], mp.off, dsoff, '%s: fast mode: dataset base = dataset memory + datasetOffset' % tag, 64)
+            else: chk(isinstance(mp, Ptr) and mp.obj == 'the_cache_memory' and mp.off == 0, 'light mode: memory pointer = cache memory')
+            # flags reach the compiler, also after version switches
+            jf = it.mem.load(Ptr(g[0].obj, g[0].off + TJ[4]), 4); q.prove_eq([], jf, flags, '%s: compiler flags == VM flags' % tag, 32)
+            for meth, expect in (('setFlagV2', flags | F['V2']), ('clearFlagV2', flags & ~F['V2'])):
+                sl = [k for k, v in slots.items() if v == meth]
+                if sl:
+                    fn = it.mem.load(Ptr(vt.obj, vt.off + 8 * sl[0]), 8); it.call(fn.obj[4:], [vm])
+                    q.prove_eq([], it.mem.load(Ptr(g[0].obj, g[0].off + TJ[4]), 4), expect, '%s: %s reaches the compiler' % (tag, meth), 32)
+                    q.prove_eq([], it.mem.load(Ptr(vm.obj, L['vmFlags']), 4), expect, '%s: %s updates the VM flags' % (tag, meth), 32)
+        else:
+            chk(ev[1][1][0].obj == vm.obj, 'interpreter loop runs on this VM')
+    it.call('randomx_destroy_vm', [vm]); chk(not H.live, 'everything released')
+    return result('K1', 'flags=%d' % flags, q, paths=1)
+
+LEMMAS['K1'] = dict(jobs=lambda ctx: [dict(flags=f) for f in (0, 2, 4, 6, 8, 10, 12, 14, 24, 28, 30)], run=run_K1, units=['lib'], asm=True,
+    functions=['InterpretedVm::run', 'CompiledVm::run', 'CompiledLightVm::run', 'CompiledVm::CompiledVm', 'setFlagV2/clearFlagV2', 'VmBase::generateProgram', 'randomx_vm::initialize', 'setDataset/setCache of every class'],
+    doc='glue around the engines for every VM class: program = AesGenerator4R(seed) over the VM\'s whole program buffer with the AES flavour of the flags; JIT code generated from this program/configuration/datasetOffset with the VM\'s flags (also after v1<->v2 switches); fast mode dataset base = memory + datasetOffset; engine entered on the VM\'s own register file, memory registers, scratchpad, for RANDOMX_PROGRAM_ITERATIONS',
+    bound='one run(seed) per class (11 flag combinations incl. secure), symbolic program entropy', symbolic='configuration quadwords', stubs=['AES generators, code generators, generated code, interpreter loop := recorders'])
